@@ -1,5 +1,5 @@
 \* Encoding migration, edge cover replayed on the real FSM (thorough tier of C07): as
-\* FSM_mig.cfg with one snapshot, no failed Persist, compaction time 64 only (48,725 states).
+\* FSM_mig.cfg without the failed Persist, compaction time 64 only (48,725 states, 86,157 transitions).
 \* EmitEdge prints the history of every generated transition.
 SPECIFICATION Spec
 CONSTANTS
@@ -11,7 +11,7 @@ CONSTANTS
     Grace = 1
     MaxLen = 6
     MaxGaps = 0
-    MaxSnaps = 1
+    MaxSnaps = 2
     MaxFails = 0
     MaxRestarts = 1
     MaxRestores = 1
